@@ -76,4 +76,23 @@ theorem render_escape_append (p x : List Char) (args : List Arg) :
       rw [render_cons_ne c _ args hc, ih]
       cases render x args <;> simp
 
+theorem renderMap_escape_append (p x : List Char) (items : List Arg) :
+    renderMap (escape p ++ x) items = (renderMap x items).map (p ++ ·) := by
+  unfold renderMap
+  induction p with
+  | nil => simp [escape]
+  | cons c rest ih =>
+    by_cases hc : c = '%'
+    · subst hc
+      simp only [escape, ↓reduceIte, List.cons_append, renderMapAux]
+      rw [ih]
+      cases renderMapAux .text x items <;> simp
+    · simp only [escape, hc, ↓reduceIte, List.cons_append, renderMapAux]
+      rw [ih]
+      cases renderMapAux .text x items <;> simp
+
+theorem renderMap_cons_ne (c : Char) (x : List Char) (items : List Arg) (h : c ≠ '%') :
+    renderMap (c :: x) items = (renderMap x items).map (c :: ·) := by
+  simp [renderMap, renderMapAux, h]
+
 end Haiway.Logs
